@@ -1,6 +1,19 @@
 """C16 - copyright: a file resolves to the last Files paragraph whose glob matches it.
 
-Two kinds of case (plain JSON):
+Three kinds of case (plain JSON):
+
+  {"kind": "globs", "patterns": [glob, ...], "names": [file name, ...]}
+
+      the list is handed to globs_to_re() directly (the translation every paragraph uses) and the
+      returned expression is asked with fullmatch(), as FilesParagraph.matches does.  Here - and
+      only here - a pattern may contain newlines, blanks or any other character (a Files field
+      cannot carry them: it is split at white space)
+
+  any kind: "before": [[glob, ...], ...]   lists converted with globs_to_re() (and asked about
+      every name) in the same process before the case proper: what a list matches must not depend
+      on which lists were converted earlier.  The generators take them from ``siblings()``: the
+      list under test joined/split at newlines (and at blank, tab, '|', ',', nothing), with two
+      neighbours merged, permuted, shortened at either end, one pattern repeated
 
   {"kind": "para", "via": "create" | "assign" | "parse",
    "patterns": [glob, ...],            the Files list under test (1..n non-empty, blank-free strings)
@@ -19,7 +32,14 @@ Two kinds of case (plain JSON):
               must follow it (the twin is asked as well).
       parse   a two-paragraph document whose Files field is spelt with ``seps`` (blanks, tabs,
               continuation lines), read with Copyright(...) in the form given by "input"/"enc"
-              (see below)
+              (see below); "omit": ["Copyright" | "License", ...] leaves these fields out of the
+              paragraph
+
+  "strict": true | false - handed to Copyright(..., strict=...), the documented parameter ("raise
+           if format errors are detected"); absent = the default.  A document with a paragraph
+           that lacks Copyright/License (or that has neither Files nor License) may be refused
+           with the format error unless strict is false; whenever it is accepted, every paragraph
+           with a Files field is a Files paragraph of the document and takes part in the lookup
 
   "input": "text-file" (default; io.StringIO) | "text-lines" (list of str) |
            "bytes-file" (io.BytesIO) | "byte-lines" (list of bytes)
@@ -28,8 +48,14 @@ Two kinds of case (plain JSON):
            CODECS; anything else, or a document the codec cannot spell, means utf-8)
 
   {"kind": "doc", "via": "dump" | "text",
-   "paras": [["F", [glob, ...], [seps]] | ["L", synopsis], ...],
+   "paras": [["F", [glob, ...], [seps]] | ["F", [glob, ...], [seps], [omitted field, ...]] |
+             ["L", synopsis] | ["X", comment], ...],
    "names": [file name, ...]}
+
+      F = Files paragraph (optionally without its Copyright and/or License field: in a document
+      written out by the harness, or - "wrap": true - built with FilesParagraph(Deb822,
+      strict=False)); L = stand-alone License paragraph; X = a paragraph with neither Files nor
+      License (only a Comment; text documents only)
 
       dump    Copyright(); add_files_paragraph / add_license_paragraph in the given order; checked,
               then dumped, re-read (in the "input"/"enc" form) and checked again.  "wrap": true
@@ -50,6 +76,7 @@ paragraph the reference says matches, or None.
 """
 import io
 import itertools
+import logging
 import posixpath
 import unicodedata
 
@@ -75,6 +102,17 @@ RULE = ("cases are (Files pattern list, way the list reaches the paragraph, file
         "blanks, NFD, backslashes, ../n, n+newline); documents with non-ASCII letters in their "
         "patterns as text file / text lines / bytes file / byte lines in 7 codecs (utf-8 koi8-r "
         "cp1251 iso8859-2 iso8859-7 latin-1 shift_jis) with encoding=codec for the byte forms; "
+        "lists handed to globs_to_re() directly (the only place where a pattern can hold white "
+        "space): each of 135 characters (all ASCII incl. newline/blank/tab/controls, 7 others) as "
+        "a literal and behind a backslash in 12 lists x 11 names; every list of one pattern <=4 "
+        "(thorough 5) and two patterns <=2 (thorough 3) characters over {a * newline} converted "
+        "after all its sibling lists (joined / split at newline blank tab | , or nothing, two "
+        "neighbours merged, split and merged elsewhere, reversed, rotated, shortened at either "
+        "end, one pattern repeated) in the same process, and 20 two-pattern lists met by a "
+        "paragraph or document after their siblings were converted; documents of 1..2 Files "
+        "paragraphs over 3 lists lacking Copyright and/or License (with License and field-less "
+        "bystander paragraphs) read with strict=False / strict=True / the default, as text and "
+        "built over Deb822 objects with FilesParagraph(data, strict=False); "
         "generated: 1..4 patterns of 1..6 "
         "tokens over a 25-token alphabet (regex meta characters, escapes, rare illegal escapes) "
         "reaching the paragraph by create / re-assignment (own files property, the wrapped Deb822, "
@@ -82,16 +120,31 @@ RULE = ("cases are (Files pattern list, way the list reaches the paragraph, file
         "names derived from the "
         "patterns (an instance of a pattern, then one character added, removed or replaced, two "
         "instances concatenated, or the instance in another spelling) and documents of 1..4 Files "
-        "paragraphs, half of the built ones over caller-owned Deb822 objects. Non-trivial = a legal "
+        "paragraphs, half of the built ones over caller-owned Deb822 objects; one parsed case in "
+        "four gives the strict parameter (3:1 False) and leaves Copyright/License out of Files "
+        "paragraphs, one case in five converts up to 3 sibling lists first; direct globs_to_re "
+        "lists of 1..4 patterns of 1..6 tokens incl. newline, blank, tab, CR, LS as literals and "
+        "(one list in eight) behind a backslash, 6 in 10 after sibling lists. Non-trivial = a legal "
         "list of >=2 patterns and a name of which some pattern matches a proper prefix or proper "
         "suffix; for documents >=2 Files paragraphs and a name matched by two of them or matched by "
         "one and nearly by another; distinct = distinct canonical JSON of the case")
 ASSUMPTIONS = [
     "reference glob matcher vcheck/model/c16_glob.py (position-set simulation, cross-checked on "
     "every evaluation against a memoised-recursion formulation; neither uses re)",
-    "patterns contain no whitespace and are non-empty (the Files field is whitespace separated; "
-    "the setter rejects anything else), so 'newlines' of the quantifier occur in names and as "
-    "pattern separators of parsed documents",
+    "patterns of a paragraph contain no whitespace and are non-empty (the Files field is whitespace "
+    "separated; the setter rejects anything else), so there 'newlines' of the quantifier occur in "
+    "names and as pattern separators of parsed documents; patterns holding newlines or blanks are "
+    "handed to globs_to_re() directly and the expression it returns is asked with fullmatch(), "
+    "exactly as FilesParagraph.matches does (non-empty patterns only)",
+    "what a list matches is a function of the list: worker processes evaluate many cases one after "
+    "the other and the 'before' lists of a case are converted in the same process, so a "
+    "violation caused by state the library keeps between calls may need the earlier "
+    "conversions (the 'before' key carries them) to replay",
+    "strict: a document with a Files paragraph lacking Copyright/License, or with a paragraph "
+    "that has neither Files nor License, may be refused with MachineReadableFormatError unless "
+    "strict=False is given; whenever Copyright(...) accepts it, every paragraph with a Files "
+    "field counts as a Files paragraph (all_files_paragraphs, find_files_paragraph) and a "
+    "field-less paragraph as none; the library's log output for tolerated errors is discarded",
     "a document holding an illegal pattern: find_files_paragraph may raise the format error or "
     "answer as if that paragraph matched nothing",
     "a FilesParagraph built with the public constructor FilesParagraph(Deb822) shares that "
@@ -110,11 +163,20 @@ EXHAUSTIVE = {
              "a / * \\ newline); all documents of 1..3 one-pattern Files paragraphs over 6 "
              "patterns x 15 names; all (old, new) pairs of 7 one-pattern lists x 3 handles x 15 "
              "names; all documents of 1..2 paragraphs over 9 lists x 6 names x 15 spellings; "
-             "7 codecs x 4 input forms x all documents of 1..2 paragraphs over 5 lists",
+             "7 codecs x 4 input forms x all documents of 1..2 paragraphs over 5 lists; "
+             "globs_to_re: 135 characters x 12 lists x 11 names; all lists of one pattern <=4 and "
+             "two patterns <=2 characters over {a * newline} after all their siblings; all "
+             "documents of 1..2 paragraphs over 3 lists x every choice of omitted "
+             "Copyright/License x strict False/True/default",
     "thorough": "quick, plus one pattern x names of 4 chars, all lists of two patterns of <=3 tokens "
                 "over {a / * ? \\*} and of three patterns of <=2 tokens over {a / * ?} x names <=3 chars",
 }
 BUDGET = {"quick": 200, "thorough": 1500}
+
+# strict=False reports what it tolerates through logging; keep the workers' stderr quiet
+_log = logging.getLogger(C.__name__)
+_log.addHandler(logging.NullHandler())
+_log.propagate = False
 
 FORMAT = "Format: https://www.debian.org/doc/packaging-manuals/copyright-format/1.0/\n"
 LEADS = ["", " ", "  ", "\t", "\n ", "\n\t"]
@@ -128,6 +190,26 @@ SEPS = [" ", "  ", "\t", "\n ", "\n  ", "\n\t", " \n "]
 def _is_pattern_list(x):
     return (isinstance(x, list) and len(x) >= 1 and
             all(isinstance(p, str) and p != "" and not any(ch.isspace() for ch in p) for p in x))
+
+
+def _is_glob_list(x):
+    """A list for globs_to_re() itself: any non-empty strings."""
+    return isinstance(x, list) and len(x) >= 1 and all(isinstance(p, str) and p != "" for p in x)
+
+
+OPTIONAL_FIELDS = ("Copyright", "License")
+
+
+def _omit(x):
+    """The fields a Files paragraph is written without (anything unusable means none)."""
+    if isinstance(x, list):
+        return [f for f in OPTIONAL_FIELDS if f in x]
+    return []
+
+
+def files_para_text(patterns, seps, omit):
+    return (files_field(patterns, seps) + ("" if "Copyright" in omit else "Copyright: c\n")
+            + ("" if "License" in omit else "License: L\n"))
 
 
 def _is_names(x):
@@ -182,10 +264,14 @@ def read_document(text, case, labels):
     if inp not in INPUTS:
         inp = "text-file"
     labels.add("input:" + inp)
+    kw = {}
+    if isinstance(case.get("strict"), bool):
+        kw["strict"] = case["strict"]
+        labels.add("strict=%s" % case["strict"])
     if inp == "text-file":
-        return C.Copyright(io.StringIO(text))
+        return C.Copyright(io.StringIO(text), **kw)
     if inp == "text-lines":
-        return C.Copyright(_lines(text))
+        return C.Copyright(_lines(text), **kw)
     enc = case.get("enc")
     if enc not in CODECS:
         enc = "utf-8"
@@ -200,8 +286,20 @@ def read_document(text, case, labels):
     if any(ord(ch) > 127 for ch in text):
         labels.add("bytes-input-with-non-ascii-text")
     if inp == "bytes-file":
-        return C.Copyright(io.BytesIO(raw), encoding=enc)
-    return C.Copyright([l.encode(enc) for l in _lines(text)], encoding=enc)
+        return C.Copyright(io.BytesIO(raw), encoding=enc, **kw)
+    return C.Copyright([l.encode(enc) for l in _lines(text)], encoding=enc, **kw)
+
+
+def read_maybe_refused(text, case, labels, incomplete):
+    """read_document; None when a document with an incomplete paragraph is refused with the
+    format error although strict=False was not asked for (the one refusal the contract allows)."""
+    try:
+        return read_document(text, case, labels)
+    except C.MachineReadableFormatError:
+        if incomplete and case.get("strict") is not False:
+            labels.add("incomplete-paragraph-refused-by-strict-parse")
+            return None
+        raise
 
 
 # ------------------------------------------------------------------------------------------
@@ -210,12 +308,18 @@ def read_document(text, case, labels):
 HANDLES = ("own", "deb822", "twin")
 
 
-def wrap_para(patterns):
-    """(paragraph, the Deb822 it wraps): the public constructor over a caller-owned Deb822."""
+def wrap_para(patterns, omit=()):
+    """(paragraph, the Deb822 it wraps): the public constructor over a caller-owned Deb822.
+    With fields left out the constructor is told strict=False (its documented way to accept
+    such data)."""
     d = D.Deb822()
     d["Files"] = " ".join(patterns)
-    d["Copyright"] = "c"
-    d["License"] = "L"
+    if "Copyright" not in omit:
+        d["Copyright"] = "c"
+    if "License" not in omit:
+        d["License"] = "L"
+    if omit:
+        return C.FilesParagraph(d, strict=False), d
     return C.FilesParagraph(d), d
 
 
@@ -372,6 +476,10 @@ def pattern_labels(patterns, labels):
     n = len(patterns)
     labels.add("patterns:%s" % (n if n < 3 else "3+"))
     for p in patterns:
+        if "\n" in p:
+            labels.add("pattern-contains-newline")
+        if " " in p or "\t" in p:
+            labels.add("pattern-contains-blank")
         try:
             toks = G.parse(p)
         except G.GlobError:
@@ -404,11 +512,109 @@ def _trailing(p):
 def check(case):
     if not isinstance(case, dict) or not _is_names(case.get("names")):
         return (False, ("invalid-case-skipped",))
-    if case.get("kind") == "para":
-        return check_para(case)
-    if case.get("kind") == "doc":
-        return check_doc(case)
-    return (False, ("invalid-case-skipped",))
+    kind = case.get("kind")
+    if kind not in ("para", "doc", "globs"):
+        return (False, ("invalid-case-skipped",))
+    extra = convert_before(case)
+    if kind == "para":
+        nt, labels = check_para(case)
+    elif kind == "doc":
+        nt, labels = check_doc(case)
+    else:
+        nt, labels = check_globs(case)
+    if extra and "invalid-case-skipped" not in labels:
+        labels = sorted(set(labels) | extra)
+    return (nt, labels)
+
+
+class Converted(object):
+    """A pattern list handed to globs_to_re() directly; matches() asks the expression it returned
+    the way FilesParagraph.matches does (fullmatch).  A list the function refuses is refused again
+    on every call, like a paragraph's."""
+
+    def __init__(self, patterns):
+        self.patterns = [str(p) for p in patterns]
+        self.pat = None
+
+    def matches(self, name):
+        if self.pat is None:
+            pat = C.globs_to_re(list(self.patterns))
+            if not hasattr(pat, "fullmatch"):
+                raise Violation("conversion-returned-no-pattern",
+                                "globs_to_re(%r) returned %r" % (self.patterns, pat))
+            self.pat = pat
+        return self.pat.fullmatch(name) is not None
+
+
+def lists_under_test(case):
+    """Every pattern list the case proper is going to use (for the evidence labels)."""
+    out = []
+    for key in ("patterns", "prev"):
+        if _is_glob_list(case.get(key)):
+            out.append(case[key])
+    for e in case.get("paras") or []:
+        if isinstance(e, list) and len(e) >= 2 and e[0] == "F" and _is_glob_list(e[1]):
+            out.append(e[1])
+    for e in case.get("edits") or []:
+        if isinstance(e, list) and e and _is_glob_list(e[-1]):
+            out.append(e[-1])
+        elif isinstance(e, list) and len(e) >= 3 and _is_glob_list(e[2]):
+            out.append(e[2])
+    return out
+
+
+def convert_before(case):
+    """The lists of "before" go through globs_to_re() first, in this very process, each asked about
+    every name of the case.  Returns evidence labels."""
+    before = case.get("before")
+    labels = set()
+    if not isinstance(before, list):
+        return labels
+    tested = lists_under_test(case)
+    done = 0
+    for k, bl in enumerate(before):
+        if not _is_glob_list(bl):
+            continue
+        ref = Ref(bl)
+        observe(Converted(bl), ref, case["names"], "globs_to_re of list %d converted before the case" % k)
+        done += 1
+        for t in tested:
+            if bl == t:
+                labels.add("before:the-same-list")
+            elif "\n".join(bl) == "\n".join(t):
+                labels.add("before:different-list-with-equal-newline-joined-text")
+            elif "".join(bl).replace("\n", "") == "".join(t).replace("\n", ""):
+                labels.add("before:list-joined-or-split-elsewhere")
+            elif sorted(bl) == sorted(t):
+                labels.add("before:permutation")
+            elif len(bl) < len(t) and (t[:len(bl)] == bl or t[len(t) - len(bl):] == bl):
+                labels.add("before:prefix-or-suffix-of-the-list")
+        if not ref.legal:
+            labels.add("before:illegal-list")
+    if done:
+        labels.add("before:%s-lists-converted-first" % (done if done < 3 else "3+"))
+    return labels
+
+
+def check_globs(case):
+    patterns, names = case.get("patterns"), case["names"]
+    if not _is_glob_list(patterns):
+        return (False, ("invalid-case-skipped",))
+    labels = set(["globs", "via:globs_to_re"])
+    pattern_labels(patterns, labels)
+    ref = Ref(patterns)
+    near = observe(Converted(patterns), ref, names, "globs_to_re", labels)
+    # a second conversion of the same list, then the lists converted first once more: none of the
+    # answers may have been changed by the conversions in between
+    observe(Converted(patterns), ref, names[:2], "globs_to_re, second conversion")
+    before = case.get("before")
+    if isinstance(before, list):
+        for k, bl in enumerate(before[:2]):
+            if _is_glob_list(bl):
+                observe(Converted(bl), Ref(bl), names[:3],
+                        "globs_to_re of list %d, converted again after the list under test" % k)
+    nontrivial = len(patterns) >= 2 and ref.legal and near > 0
+    return (nontrivial, sorted(labels))
 
 
 def new_para(patterns):
@@ -468,10 +674,15 @@ def check_para(case):
             observe(twin, ref, names[:2], how + "twin after Files = new again", fresh_check=True)
     else:
         seps = case.get("seps")
-        text = FORMAT + "\n" + files_field(patterns, seps) + "Copyright: c\nLicense: L\n"
+        omit = _omit(case.get("omit"))
+        for f in omit:
+            labels.add("files-paragraph-without-" + f)
+        text = FORMAT + "\n" + files_para_text(patterns, seps, omit)
         if "\n" in files_field(patterns, seps)[:-1]:
             labels.add("parse:patterns-on-continuation-lines")
-        doc = read_document(text, case, labels)
+        doc = read_maybe_refused(text, case, labels, bool(omit))
+        if doc is None:
+            return (False, sorted(labels))
         ps = list(doc.all_files_paragraphs())
         if len(ps) != 1:
             raise Violation("files-field-misread", "%r parsed into %d Files paragraphs" % (text, len(ps)))
@@ -494,7 +705,11 @@ def check_doc(case):
     norm = []
     for e in paras:
         if isinstance(e, list) and len(e) >= 2 and e[0] == "F" and _is_pattern_list(e[1]):
-            norm.append(("F", e[1], e[2] if len(e) > 2 else None))
+            norm.append(("F", e[1], e[2] if len(e) > 2 else None, _omit(e[3] if len(e) > 3 else None)))
+        elif (isinstance(e, list) and len(e) >= 2 and e[0] == "X" and isinstance(e[1], str)
+              and e[1].strip() == e[1] and e[1] != "" and e[1].isprintable()):
+            if via == "text":            # there is no way to build such a paragraph
+                norm.append(("X", e[1], None))
         elif (isinstance(e, list) and len(e) >= 2 and e[0] == "L" and isinstance(e[1], str)
               and e[1].strip() == e[1] and e[1] != "" and e[1].isprintable()):
             norm.append(("L", e[1], None))
@@ -504,6 +719,16 @@ def check_doc(case):
     if not flists:
         return (False, ("invalid-case-skipped",))
     labels = set(["doc", "via:doc-" + via, "doc:files-paragraphs=%d" % min(len(flists), 4)])
+    wrap = via == "dump" and case.get("wrap") is True
+    incomplete = False
+    for e in norm:
+        if e[0] == "X":
+            labels.add("doc:paragraph-with-neither-files-nor-license")
+            incomplete = True
+        elif e[0] == "F" and e[3] and (via == "text" or wrap):
+            for f in e[3]:
+                labels.add("files-paragraph-without-" + f)
+            incomplete = True
     kinds = [e[0] for e in norm]
     if "L" in kinds and "F" in kinds[kinds.index("L"):]:
         labels.add("doc:license-paragraph-before-a-files-paragraph")
@@ -512,14 +737,13 @@ def check_doc(case):
 
     if via == "dump":
         doc = C.Copyright()
-        wrap = case.get("wrap") is True
         if wrap:
             labels.add("doc:paragraphs-wrap-caller-owned-deb822")
         handles = []
         for e in norm:
             if e[0] == "F":
                 if wrap:
-                    p, d = wrap_para(e[1])
+                    p, d = wrap_para(e[1], e[3])
                     handles.append(d)
                 else:
                     p = new_para(e[1])
@@ -530,17 +754,22 @@ def check_doc(case):
         nt = doc_observe(doc, flists, names, "built document", labels)
         nt = apply_edits(doc, flists, names, case.get("edits"), labels, handles, wrap) or nt
         text = doc.dump()
-        doc2 = read_document(text, case, labels)
-        doc_observe(doc2, flists, names, "re-read document %s" % short(text, 200), set())
+        doc2 = read_maybe_refused(text, case, labels, incomplete)
+        if doc2 is not None:
+            doc_observe(doc2, flists, names, "re-read document %s" % short(text, 200), set())
     else:
         chunks = [FORMAT]
         for e in norm:
             if e[0] == "F":
-                chunks.append(files_field(e[1], e[2]) + "Copyright: c\nLicense: L\n")
+                chunks.append(files_para_text(e[1], e[2], e[3]))
+            elif e[0] == "X":
+                chunks.append("Comment: %s\n" % e[1])
             else:
                 chunks.append("License: %s\n text\n" % e[1])
         text = "\n".join(chunks)
-        doc = read_document(text, case, labels)
+        doc = read_maybe_refused(text, case, labels, incomplete)
+        if doc is None:
+            return (False, sorted(labels))
         nt = doc_observe(doc, flists, names, "document %s" % short(text, 200), labels)
         nt = apply_edits(doc, flists, names, case.get("edits"), labels,
                          [None] * len(flists), False) or nt
@@ -565,7 +794,11 @@ def apply_edits(doc, flists, names, edits, labels, handles, wrap):
             if handle == "own":
                 p.files = tuple(e[2])
             else:
-                twin = C.FilesParagraph(handles[i]) if handle == "twin" else None
+                twin = None
+                if handle == "twin":
+                    complete = all(f in handles[i] for f in OPTIONAL_FIELDS)
+                    twin = (C.FilesParagraph(handles[i]) if complete
+                            else C.FilesParagraph(handles[i], strict=False))
                 set_files(p, handles[i], twin, e[2], handle)
             flists[i] = list(e[2])
             labels.add("doc-edit:files-reassigned")
@@ -769,6 +1002,147 @@ def enum_spellings():
                        "names": respell(base)}
 
 
+# Lists "made of the same characters" as a given one.  What a list matches is a function of the
+# list alone, so converting any of these first (same process) must not change an answer.
+JOINERS = ["\n", " ", "|", "", "\t", ","]
+
+
+def siblings(patterns):
+    patterns = list(patterns)
+    out = []
+
+    def add(l):
+        l = [p for p in l if p != ""]
+        if l and l != patterns and l not in out:
+            out.append(l)
+
+    n = len(patterns)
+    for j in JOINERS:
+        add([j.join(patterns)])                                   # everything joined
+        for k in range(n - 1):                                    # two neighbours merged
+            add(patterns[:k] + [j.join(patterns[k:k + 2])] + patterns[k + 2:])
+        if j == "":
+            continue
+        parts = [part for p in patterns for part in p.split(j)]
+        add(parts)                                                # split everywhere
+        for k, p in enumerate(patterns):                          # split at one place
+            if j in p:
+                add(patterns[:k] + p.split(j, 1) + patterns[k + 1:])
+                add(patterns[:k] + p.rsplit(j, 1) + patterns[k + 1:])
+        parts = [q for q in parts if q != ""]
+        for k in range(len(parts) - 1):                           # split, then merged elsewhere
+            add(parts[:k] + [j.join(parts[k:k + 2])] + parts[k + 2:])
+    add(patterns[::-1])
+    add(patterns[1:] + patterns[:1])
+    add(patterns[:-1])
+    add(patterns[1:])
+    add(patterns + patterns[:1])
+    add(patterns + patterns[-1:])
+    return out
+
+
+def sibling_names(lists):
+    """Names the lists disagree about: every pattern read as a name ('*' as nothing and as 'a')."""
+    out = []
+    for l in lists:
+        for p in l:
+            for n in (p.replace("*", ""), p.replace("*", "a"), p.replace("\\", "")):
+                if n not in out:
+                    out.append(n)
+    return out
+
+
+def enum_siblings(maxw=2):
+    """Every list of one pattern of <=maxw+2 and of two patterns of <=maxw characters over
+    {a * newline} (and some of 3 patterns), converted after all its siblings; paragraphs and
+    documents whose lists are met after their joined siblings."""
+    words = _words(["a", "*", "\n"], 1, maxw)
+    lists = [[w] for w in _words(["a", "*", "\n"], 1, maxw + 2)] + [[v, w] for v in words for w in words]
+    lists += [list(t) for t in itertools.product(["a", "b\nb", "*a", "a\n*"], repeat=3)]
+    for pl in lists:
+        if "\n" not in "".join(pl) and len(pl) == 1:
+            continue
+        sib = siblings(pl)
+        yield {"kind": "globs", "patterns": pl, "before": sib,
+               "names": sibling_names([pl] + sib)[:12]}
+    pats = ["a", "a*", "*b", "a/b", "b"]
+    k = 0
+    for x in pats:
+        for y in pats:
+            if x == y:
+                continue
+            pl = [x, y]
+            sib = siblings(pl)
+            names = sibling_names([pl] + sib)[:12]
+            for via in ("create", "parse", "assign"):
+                k += 1
+                case = {"kind": "para", "via": via, "patterns": pl, "before": sib, "names": names,
+                        "seps": ["", "\n "] if k % 2 else [" "]}
+                if via == "assign":
+                    case["prev"] = [y]
+                    case["handle"] = HANDLES[k % 3]
+                yield case
+            for via in ("text", "dump"):
+                yield {"kind": "doc", "via": via, "paras": [["F", ["*"], [" "]], ["F", pl, [" ", "\n "]]],
+                       "before": sib, "names": names}
+
+
+CHARS = [chr(i) for i in range(128)] + ["\x85", "\xa0", "\xe9", "\u2028", "\u2029", "\ufeff",
+                                         "\U0001f600"]
+
+
+def enum_chars():
+    """Every character of CHARS as a literal and behind a backslash, in lists of 1..2 patterns
+    handed to globs_to_re() (only there can a pattern hold white space)."""
+    for c in CHARS:
+        names = [c, "a" + c, c + "a", "a" + c + "b", "\\" + c, "a\\" + c + "b", "", "a", "b",
+                 c + c, "a" + c + c + "b"]
+        for pl in ([c], ["a" + c + "b"], ["*" + c], [c + "?"], ["a" + c, c + "b"],
+                   ["\\" + c], ["a\\" + c], ["\\" + c + "a"], ["a\\" + c + "b"],
+                   ["b", "\\" + c + "a"], ["a\\" + c, "b"], ["*", "\\" + c]):
+            yield {"kind": "globs", "patterns": pl, "names": names}
+
+
+def enum_incomplete():
+    """Documents of 1..2 Files paragraphs (+ bystanders) with every subset of {Copyright, License}
+    left out of each, read with strict=False / strict=True / the default; the same built over
+    Deb822 objects; single paragraphs likewise."""
+    lists = [["*"], ["a*"], ["a/*", "b"]]
+    names = ["a", "a/a", "b", "ab", "c", ""]
+    omits = [[], ["License"], ["Copyright"], ["Copyright", "License"]]
+    k = 0
+    for strict in (False, True, None):
+        for n in (1, 2):
+            for combo in itertools.product(lists, repeat=n):
+                for om in itertools.product(omits, repeat=n):
+                    if not any(om):
+                        continue
+                    k += 1
+                    paras = [["F", pl, ["\n " if k % 3 == 0 else " "], o] for pl, o in zip(combo, om)]
+                    if k % 4 == 1:
+                        paras.insert(1, ["L", "MIT"])
+                    if k % 4 == 2:
+                        paras.insert(k % 3, ["X", "see upstream"])
+                    case = {"kind": "doc", "via": "text", "paras": paras, "names": names,
+                            "input": INPUTS[k % 4]}
+                    if strict is not None:
+                        case["strict"] = strict
+                    yield case
+                    if not any(e[0] == "X" for e in paras):
+                        case = dict(case, via="dump", wrap=True)
+                        if k % 2:
+                            case["edits"] = [["files", k, ["b*"], HANDLES[k % 3]]]
+                        yield case
+        for pl in lists:
+            for om in omits[1:]:
+                k += 1
+                case = {"kind": "para", "via": "parse", "patterns": pl, "omit": om,
+                        "seps": [" ", "\n "], "names": names, "input": INPUTS[k % 4]}
+                if strict is not None:
+                    case["strict"] = strict
+                yield case
+
+
 def translate(x, table):
     """The case with every pattern and name character replaced according to ``table`` (a
     character-for-character renaming of letters keeps what matches what)."""
@@ -781,7 +1155,7 @@ def translate(x, table):
 
 def translate_case(case, table):
     out = dict(case)
-    for key in ("patterns", "prev", "names"):
+    for key in ("patterns", "prev", "names", "before"):
         if key in out:
             out[key] = translate(out[key], table)
     if "paras" in out:
@@ -927,6 +1301,43 @@ def join(tl):
     return ["".join(p) for p in tl]
 
 
+def draw_before(draw, case, lists, often):
+    """Now and then: up to three siblings of one of the case's lists, to be converted first."""
+    if draw(st.integers(0, 9)) >= often:
+        return case
+    pl = lists[draw(st.integers(0, len(lists) - 1))]
+    sib = siblings(pl) + [list(pl)]
+    case["before"] = [sib[i % len(sib)] for i in draw(st.lists(st.integers(0, len(sib) - 1),
+                                                                min_size=1, max_size=3))]
+    return case
+
+
+glob_token = st.one_of(legal_token, st.sampled_from(["\n", "\n", " ", "\t", "a", "b", "\r", "\u2028"]))
+illegal_glob_token = st.sampled_from(["\\\n", "\\ ", "\\\t", "\\a", "\\\r", "\\b"])
+
+
+@st.composite
+def gen_globs(draw):
+    """A list for globs_to_re() itself: patterns may hold newlines and blanks (as literals and,
+    illegally, behind a backslash)."""
+    n = draw(st.sampled_from([1, 2, 2, 3, 4]))
+    bad = draw(st.integers(0, 7)) == 0
+    which = draw(st.integers(0, n - 1)) if bad else -1
+    tl = []
+    for i in range(n):
+        toks = draw(st.lists(glob_token, min_size=1, max_size=6))
+        if i == which:
+            if draw(st.integers(0, 3)) == 0:
+                toks = toks + ["\\"]
+            else:
+                k = draw(st.integers(0, len(toks)))
+                toks = toks[:k] + [draw(illegal_glob_token)] + toks[k:]
+        tl.append(toks)
+    case = {"kind": "globs", "patterns": join(tl)}
+    case["names"] = [derived_name(draw, [tl]) for _ in range(draw(st.integers(1, 5)))]
+    return draw_before(draw, case, [case["patterns"]], 6)
+
+
 @st.composite
 def gen_para(draw):
     via = draw(st.sampled_from(["create", "assign", "assign", "parse"]))
@@ -947,8 +1358,28 @@ def gen_para(draw):
     n = draw(st.integers(1, 5))
     case["names"] = [derived_name(draw, lists) for _ in range(n)]
     if via == "parse":
+        draw_strict(draw, case, None)
+    draw_before(draw, case, [case["patterns"]] + ([case["prev"]] if via == "assign" else []), 2)
+    if via == "parse":
         case = draw_input_form(draw, case)
     return case
+
+
+def draw_strict(draw, case, paras):
+    """One case in four: the strict parameter is given (mostly False), and with it fields are
+    left out of some Files paragraphs; sometimes a paragraph with neither Files nor License."""
+    if draw(st.integers(0, 3)) != 0:
+        return
+    case["strict"] = draw(st.sampled_from([False, False, False, True]))
+    choice = st.sampled_from([[], ["License"], ["License"], ["Copyright"], ["Copyright", "License"]])
+    if paras is None:
+        case["omit"] = draw(choice)
+        return
+    for e in paras:
+        if e[0] == "F":
+            e.append(draw(choice))
+    if draw(st.integers(0, 3)) == 0:
+        paras.insert(draw(st.integers(0, len(paras))), ["X", "see upstream"])
 
 
 def draw_input_form(draw, case):
@@ -1014,10 +1445,12 @@ def gen_doc(draw):
         for e in edits:
             if e[0] == "files":
                 e.append(draw(st.sampled_from(HANDLES)))
+    draw_strict(draw, case, paras)
+    draw_before(draw, case, [e[1] for e in paras if e[0] == "F"], 2)
     return draw_input_form(draw, case)
 
 
-def extra_enums():
+def extra_enums(tier):
     return [
         Enum("second-handle", enum_handles, "one paragraph, 7x6 (old, new) lists x 3 handles x 2 "
              "spellings of the Files text x 15 names"),
@@ -1025,6 +1458,18 @@ def extra_enums():
              "15 spellings (./n /n n/ x/../n ././n // n/. case blanks NFD backslash ../n n+newline)"),
         Enum("encoded-documents", enum_encoded, "7 codecs x 4 input forms x (1..2 Files paragraphs "
              "over 5 lists with non-ASCII letters + 5 single paragraphs) x 8 names"),
+        Enum("every-character", enum_chars, "globs_to_re: each of 135 characters (all of ASCII, "
+             "NEL, NBSP, e-acute, LS, PS, BOM, an astral one) as a literal and behind a backslash "
+             "in 12 lists of 1..2 patterns x 11 names"),
+        Enum("sibling-lists", (lambda: enum_siblings(2 if tier == "quick" else 3)),
+             "globs_to_re: every list of one pattern of <=4 (thorough 5) characters with a newline "
+             "and of two patterns of <=2 (thorough 3) characters over {a * newline} (+64 of three "
+             "patterns) converted after all its siblings; 20 two-pattern lists met by a paragraph "
+             "(create/parse/assign) and by a document after their siblings were converted"),
+        Enum("incomplete-paragraphs", enum_incomplete, "1..2 Files paragraphs over 3 lists, each "
+             "without every non-empty choice from {Copyright, License} somewhere, with License / "
+             "field-less bystander paragraphs, x strict=False/True/default x 4 input forms, as "
+             "text and built over Deb822 objects; single paragraphs likewise"),
     ]
 
 
@@ -1034,9 +1479,10 @@ def sources(tier):
             Enum("one-pattern<=3tok", enum_lists(1, 3, 3), "one pattern <=3 tokens x names <=3"),
             Enum("two-patterns<=2tok", enum_lists(2, 2, 3, illegal=E_ILLEGAL2), "two patterns <=2 tokens x names <=3"),
             Enum("small-documents", enum_docs, "1..3 one-pattern Files paragraphs x 15 names"),
-        ] + extra_enums() + [
+        ] + extra_enums(tier) + [
             Hyp("pattern-lists", gen_para(), 600, shards=8),
             Hyp("documents", gen_doc(), 250, shards=8),
+            Hyp("direct-conversion", gen_globs(), 300, shards=4),
         ]
     return [
         Enum("one-pattern<=3tok", enum_lists(1, 3, 4), "one pattern <=3 tokens x names <=4"),
@@ -1046,7 +1492,8 @@ def sources(tier):
         Enum("three-patterns<=2tok", enum_lists(3, 2, 3, tokens=["a", "/", "*", "?"], illegal=()),
              "three patterns <=2 tokens over {a / * ?} x names <=3"),
         Enum("small-documents", enum_docs, "1..3 one-pattern Files paragraphs x 15 names"),
-    ] + extra_enums() + [
+    ] + extra_enums(tier) + [
         Hyp("pattern-lists", gen_para(), 6000, shards=16),
         Hyp("documents", gen_doc(), 2500, shards=16),
+        Hyp("direct-conversion", gen_globs(), 3000, shards=16),
     ]
